@@ -31,7 +31,7 @@ Proof.
   - apply (R_written s r HR a).
   - apply (R_good s r HR a).
   - intros Hw Hs. unfold r_get in Hs. rewrite <- A in Hs. apply (R_wr s r HR a); auto.
-  - intros Hb. rewrite <- E. apply (R_base s r HR a Hb).
+  - rewrite <- E. apply (R_base s r HR a).
 Qed.
 
 Lemma R_le s s' r : R s r -> le s s' -> R s' r.
@@ -89,7 +89,7 @@ Proof.
         -- split.
            ++ intros Hw Hs. simpl in Hw. destruct (R_wr s r HR a Hw Hs) as [W1 _]. split; [exact W1|].
               intros k v Hv. discriminate.
-           ++ intros Hb. simpl. apply (R_base s r HR a). rewrite <- CF. exact Hb.
+           ++ simpl. apply (R_base s r HR a).
       * left. unfold unch. rewrite Cu.
         split; [subst s'; rewrite lookup_set_other, lookup_push by assumption; reflexivity|].
         split; [subst s'; unfold set_obj; sdb_simp; rewrite push_dirt; simpl; unfold dinc; apply upd_other; assumption|].
@@ -338,7 +338,7 @@ Proof.
       { subst o'. split; [|split]; simpl; try discriminate; [|intros k Hk; contradiction].
         intros _ k _. unfold comm. simpl. symmetry. apply W1. }
       split; [intros _ _; split; [exact W1|]; intros k v Hv; discriminate|].
-      intros Hb. apply (R_base s r HR a). rewrite <- CF. exact Hb.
+      apply (R_base s r HR a).
     + left. unfold unch. rewrite Cu.
       split; [subst s'; rewrite !lookup_set_other by assumption; rewrite lookup_push; apply lookup_cached|].
       split; [subst s'; unfold set_obj; sdb_simp; rewrite ?push_dirt; simpl; apply (f_equal (fun f => f y) (cached_dirt s a))|].
@@ -491,7 +491,7 @@ Proof.
         destruct (dirty o k) as [v|] eqn:Hk.
         * rewrite (W2 k v Hk). unfold comm. destruct (origin o k) eqn:Ho; [apply (G2 k w Ho)|reflexivity].
         * unfold comm. destruct (origin o k) eqn:Ho; [apply (G2 k w Ho)|reflexivity]. }
-      intros _. simpl. rewrite Hy. unfold bank_bal. rewrite Hacc. destruct Ha as (Hb&_&_&Hsu). rewrite <- Hsu, <- Hb.
+      simpl. rewrite Hy. unfold bank_bal. rewrite Hacc. destruct Ha as (Hb&_&_&Hsu). rewrite <- Hsu, <- Hb.
       destruct (suicided o); reflexivity.
     + destruct (r_accs r x) as [y|] eqn:Hy; [contradiction|].
       assert (Hdn : dirt s x = None).
@@ -504,7 +504,7 @@ Proof.
       * reflexivity.
       * reflexivity.
       * reflexivity.
-      * intros _. simpl. rewrite Hy. rewrite Hcur. unfold bank_bal, flush_store. simpl. rewrite Hdn.
+      * simpl. rewrite Hy. rewrite Hcur. unfold bank_bal, flush_store. simpl. rewrite Hdn.
         rewrite (lookup_none_accs s x Hl). reflexivity.
   - intros a. unfold commit_cache, flush_dirt. sdb_simp. destruct (dirt s a); [right|left]; reflexivity.
 Qed.
@@ -553,13 +553,13 @@ Definition presync (s : sdb) (r' : rstate) (a : addr) : Prop :=
     obj_good (txs s) (cur_store s) a o /\
     (r_wr r' a = false -> rs y' = false ->
        (forall k, stor (cur_store s) a k = stor (txs s) a k) /\ trivial_dirty (txs s) a o) /\
-    (In a (blocked (cf s)) -> bank_bal (cur_store s) a = r_base r' a).
+    (bank_bal (cur_store s) a = r_base r' a).
 
 Lemma sync_gen s r' a : presync s r' a -> Rat (sync s a) r' a.
 Proof.
   intros (o&y'&L&A&B&N&C&S&Hc&St&G&W&Bl). apply Rat_gen. unfold updd, sync.
   exists (w_bal o (to_wei (bank_bal (cur_store s) a))), y'.
-  rewrite set_balance_txs, set_balance_cur, set_balance_cf, set_balance_lookup_same. unfold the_obj. rewrite L.
+  rewrite set_balance_txs, set_balance_cur, set_balance_lookup_same. unfold the_obj. rewrite L.
   destruct (set_balance_dirt_same s a (to_wei (bank_bal (cur_store s) a)) Hc) as (c&Hd&Hp).
   split; [reflexivity|]. split; [exact A|]. split; [repeat split; simpl; congruence|].
   split; [intros c0 Hc0; rewrite Hd in Hc0; inversion Hc0; lia|].
@@ -577,7 +577,7 @@ Qed.
 Lemma presync_unch s r' a x : x <> a -> presync s r' x -> presync (sync s a) r' x.
 Proof.
   intros Hx (o&y'&L&A&B&N&C&S&Hc&St&G&W&Bl). exists o, y'. unfold sync.
-  rewrite set_balance_txs, set_balance_cur, set_balance_cf, set_balance_lookup_other, set_balance_dirt_other by assumption.
+  rewrite set_balance_txs, set_balance_cur, set_balance_lookup_other, set_balance_dirt_other by assumption.
   split; [exact L|]. split; [exact A|]. split; [exact B|]. split; [exact N|]. split; [exact C|]. split; [exact S|].
   split; [exact Hc|]. split; [exact St|]. split; [exact G|]. split; [exact W | exact Bl].
 Qed.
@@ -628,16 +628,16 @@ Qed.
 
 (** the state after the bank moved the coins, before the syncs: what a sync of [x] will find *)
 Lemma presync_moved s r r' c f t amt x y' :
-  R s r -> views s -> cache s = Some c -> x = f \/ x = t ->
-  ~ In x (blocked (cf s)) ->
+  R s r -> cache s = Some c -> x = f \/ x = t ->
   rs (r_get r x) = false ->
   r_accs r' x = Some y' ->
   rb y' = to_wei (bank_bal (bank_move c f t amt) x) -> rn y' = rn (r_get r x) -> rc y' = rc (r_get r x) ->
   rs y' = false ->
   (forall k, r_stor r' x k = r_stor r x k) -> r_wr r' x = r_wr r x ->
+  bank_bal (bank_move c f t amt) x = r_base r' x ->
   presync (with_cache s (Some (bank_move c f t amt))) r' x.
 Proof.
-  intros HR HV Hc Hx Hnb Hsx A B N C S St Wr.
+  intros HR Hc Hx Hsx A B N C S St Wr Bb.
   set (c1 := bank_move c f t amt). set (sA := with_cache s (Some c1)).
   assert (Hcur : cur_store s = c) by (unfold cur_store; rewrite Hc; reflexivity).
   pose proof (R_acc s r HR x) as Ha.
@@ -683,7 +683,7 @@ Proof.
   split; [exact L|]. split; [exact A|]. split; [exact B|]. split; [congruence|]. split; [congruence|]. split; [congruence|].
   split; [apply (R_cnt s r HR x)|].
   split; [intros k; rewrite St; apply St'|].
-  split; [exact G'|]. split; [|intros Hb; contradiction].
+  split; [exact G'|]. split; [|exact Bb].
   intros Hw _. rewrite Wr in Hw. apply W'; exact Hw.
 Qed.
 
@@ -692,22 +692,24 @@ Proof. unfold r_get. rewrite r_set_same. reflexivity. Qed.
 Lemma r_get_set_other r a x b : b <> a -> r_get (r_set r a x) b = r_get r b.
 Proof. intros H. unfold r_get. rewrite r_set_other by assumption. reflexivity. Qed.
 
+Lemma r_setb_same r a x b : r_accs (r_setb r a x b) a = Some x.
+Proof. unfold r_setb; simpl. apply upd_same. Qed.
+Lemma r_setb_other r a x b y : y <> a -> r_accs (r_setb r a x b) y = r_accs r y.
+Proof. intros H. unfold r_setb; simpl. apply upd_other; assumption. Qed.
+Lemma r_get_setb_same r a x b : r_get (r_setb r a x b) a = x.
+Proof. unfold r_get. rewrite r_setb_same. reflexivity. Qed.
+Lemma r_get_setb_other r a x b y : y <> a -> r_get (r_setb r a x b) y = r_get r y.
+Proof. intros H. unfold r_get. rewrite r_setb_other by assumption. reflexivity. Qed.
+Lemma r_base_setb_same r a x b : r_base (r_setb r a x b) a = b.
+Proof. unfold r_setb; simpl. apply upd_same. Qed.
+Lemma r_base_setb_other r a x b y : y <> a -> r_base (r_setb r a x b) y = r_base r y.
+Proof. intros H. unfold r_setb; simpl. apply upd_other; assumption. Qed.
+
 Lemma bank_send_sync s c f t amt :
   cache s = Some c -> (amt <=? 0) || (bank_bal c f <? amt) = false ->
   bank_send s f t amt = sync (sync (with_cache s (Some (bank_move c f t amt))) f) t.
 Proof.
   intros Hc Hg. unfold bank_send, sync. rewrite Hc, Hg. rewrite set_balance_cur. reflexivity.
-Qed.
-
-Lemma bank_view s r c x :
-  R s r -> views s -> cache s = Some c -> rs (r_get r x) = false ->
-  bank_bal c x = to_native (rb (r_get r x)).
-Proof.
-  intros HR HV Hc Hs. assert (Hcur : cur_store s = c) by (unfold cur_store; rewrite Hc; reflexivity).
-  pose proof (R_acc s r HR x) as Ha. unfold r_get in *.
-  destruct (lookup s x) as [o|] eqn:Hl, (r_accs r x) as [y|] eqn:Hy; try contradiction.
-  - destruct Ha as (A1&_&_&A4). rewrite <- A1, <- Hcur. apply (HV x o Hl). congruence.
-  - simpl. pose proof (lookup_none_accs s x Hl) as Hn. rewrite Hcur in Hn. unfold bank_bal. rewrite Hn. reflexivity.
 Qed.
 
 Lemma lookup_moved_other s c c1 x :
@@ -722,48 +724,53 @@ Proof.
   apply existsb_exists. exists a. split; [exact Hin | apply Z.eqb_refl].
 Qed.
 
+(** a bank send with its two syncs keeps the simulation; the reference moves the BANK's balances
+    ([r_base]) and sets the EVM balances of both parties to them *)
 Lemma sim_bank_send s r f t amt :
-  R s r -> views s -> cache s <> None -> blocked (cf s) = r_bl r -> wf_send r (f, t, amt) = true ->
-  R (bank_send s f t amt) (r_send r f t amt) /\ views (bank_send s f t amt).
+  R s r -> cache s <> None -> wf_send r (f, t, amt) = true ->
+  R (bank_send s f t amt) (r_send r f t amt).
 Proof.
-  intros HR HV Hcn Hbl Hwf. destruct (cache s) as [c|] eqn:Hc; [|contradiction]. clear Hcn.
-  unfold wf_send in Hwf. simpl in Hwf. apply andb_true_iff in Hwf as [Hwf Hbt].
-  apply andb_true_iff in Hwf as [Hwf Hbf]. apply andb_true_iff in Hwf as [Hsf Hst].
+  intros HR Hcn Hwf. destruct (cache s) as [c|] eqn:Hc; [|contradiction]. clear Hcn.
+  unfold wf_send in Hwf. simpl in Hwf. apply andb_true_iff in Hwf as [Hwf _].
+  apply andb_true_iff in Hwf as [Hwf _]. apply andb_true_iff in Hwf as [Hsf Hst].
   apply negb_true_iff in Hsf. apply negb_true_iff in Hst.
-  apply negb_true_iff, is_bl_false in Hbf. apply negb_true_iff, is_bl_false in Hbt.
-  rewrite <- Hbl in Hbf, Hbt.
-  pose proof (bank_view s r c f HR HV Hc Hsf) as Bf. pose proof (bank_view s r c t HR HV Hc Hst) as Bt.
-  unfold r_send. rewrite <- Bf.
+  assert (Hcur : cur_store s = c) by (unfold cur_store; rewrite Hc; reflexivity).
+  assert (Bv : forall x, bank_bal c x = r_base r x) by (intros x; rewrite <- Hcur; apply (R_base s r HR x)).
+  unfold r_send. rewrite <- (Bv f).
   destruct ((amt <=? 0) || (bank_bal c f <? amt)) eqn:Hg.
-  { unfold bank_send. rewrite Hc, Hg. split; assumption. }
+  { unfold bank_send. rewrite Hc, Hg. exact HR. }
   rewrite (bank_send_sync s c f t amt Hc Hg).
   set (c1 := bank_move c f t amt). set (sA := with_cache s (Some c1)).
   set (yf := rw_b (r_get r f) (to_wei (bank_bal c f - amt))).
-  set (r1 := r_set r f yf).
-  set (yt := rw_b (r_get r1 t) (to_wei (to_native (rb (r_get r1 t)) + amt))).
-  set (r' := r_set r1 t yt).
-  assert (Hcur : cur_store s = c) by (unfold cur_store; rewrite Hc; reflexivity).
-  (* the reference accounts of f and t after the send *)
-  assert (Ht' : r_accs r' t = Some yt) by apply r_set_same.
+  set (r1 := r_setb r f yf (bank_bal c f - amt)).
+  set (yt := rw_b (r_get r1 t) (to_wei (r_base r1 t + amt))).
+  set (r' := r_setb r1 t yt (r_base r1 t + amt)).
+  assert (Hb1t : r_base r1 t + amt = bank_bal c1 t).
+  { unfold c1. rewrite bm_bal, Z.eqb_refl. unfold r1. destruct (Z.eqb_spec t f) as [E|Hne].
+    - rewrite E, r_base_setb_same. lia.
+    - rewrite (r_base_setb_other r f yf (bank_bal c f - amt) t Hne). rewrite <- (Bv t). lia. }
+  assert (Ht' : r_accs r' t = Some yt) by apply r_setb_same.
+  assert (Hbt : bank_bal c1 t = r_base r' t) by (unfold r'; rewrite r_base_setb_same; symmetry; exact Hb1t).
   assert (Hyt : rb yt = to_wei (bank_bal c1 t) /\ rn yt = rn (r_get r t) /\ rc yt = rc (r_get r t) /\ rs yt = false).
-  { unfold yt, c1. rewrite bm_bal, Z.eqb_refl. destruct (Z.eqb_spec t f) as [E|Hne].
-    - unfold r1. rewrite E, r_get_set_same. unfold yf. simpl.
-      rewrite to_native_to_wei. repeat split; auto; f_equal; lia.
-    - unfold r1. rewrite r_get_set_other by assumption.
-      rewrite <- Bt. repeat split; auto; simpl; f_equal; lia. }
+  { unfold yt. rewrite Hb1t. unfold r1. destruct (Z.eq_dec t f) as [E|Hne].
+    - rewrite E, r_get_setb_same. unfold yf. simpl. repeat split; auto.
+    - rewrite r_get_setb_other by assumption. simpl. repeat split; auto. }
   destruct Hyt as (Yt1&Yt2&Yt3&Yt4).
   assert (PSt : t <> f -> presync sA r' t).
-  { intros Hne. apply (presync_moved s r r' c f t amt t yt HR HV Hc (or_intror eq_refl) Hbt Hst Ht' Yt1 Yt2 Yt3 Yt4); reflexivity. }
+  { intros Hne. apply (presync_moved s r r' c f t amt t yt HR Hc (or_intror eq_refl) Hst Ht' Yt1 Yt2 Yt3 Yt4); try reflexivity.
+    exact Hbt. }
   assert (Hf' : exists y, r_accs r' f = Some y /\ rb y = to_wei (bank_bal c1 f) /\ rn y = rn (r_get r f) /\
-                          rc y = rc (r_get r f) /\ rs y = false).
+                          rc y = rc (r_get r f) /\ rs y = false /\ bank_bal c1 f = r_base r' f).
   { destruct (Z.eq_dec f t) as [E|Hne].
     - exists yt. rewrite E at 1. split; [exact Ht'|]. rewrite E. repeat split; assumption.
-    - exists yf. split; [unfold r'; rewrite r_set_other by assumption; apply r_set_same|].
-      unfold yf, c1. rewrite bm_bal, Z.eqb_refl. simpl. destruct (Z.eqb_spec f t); [contradiction|].
-      repeat split; auto. f_equal. lia. }
-  destruct Hf' as (y&Hy&Y1&Y2&Y3&Y4).
+    - exists yf. split; [unfold r'; rewrite r_setb_other by assumption; apply r_setb_same|].
+      assert (Hbf : bank_bal c1 f = bank_bal c f - amt).
+      { unfold c1. rewrite bm_bal, Z.eqb_refl. destruct (Z.eqb_spec f t); [contradiction|]. lia. }
+      rewrite Hbf. split; [reflexivity|]. split; [reflexivity|]. split; [reflexivity|]. split; [exact Hsf|].
+      unfold r'. rewrite r_base_setb_other by assumption. unfold r1. rewrite r_base_setb_same. reflexivity. }
+  destruct Hf' as (y&Hy&Y1&Y2&Y3&Y4&Y5).
   assert (PSf : presync sA r' f).
-  { apply (presync_moved s r r' c f t amt f y HR HV Hc (or_introl eq_refl) Hbf Hsf Hy Y1 Y2 Y3 Y4); reflexivity. }
+  { apply (presync_moved s r r' c f t amt f y HR Hc (or_introl eq_refl) Hsf Hy Y1 Y2 Y3 Y4); try reflexivity. exact Y5. }
   assert (RAf : Rat (sync sA f) r' f) by (apply sync_gen; exact PSf).
   assert (PSt' : presync (sync sA f) r' t).
   { destruct (Z.eq_dec t f) as [E|Hne].
@@ -772,24 +779,22 @@ Proof.
     - apply presync_unch; [exact Hne | apply PSt; exact Hne]. }
   assert (Hoth : forall x, x <> f -> x <> t -> accs c1 x = accs c x) by (intros; apply bm_other; assumption).
   split.
-  - split.
-    + unfold sync. rewrite !set_balance_aux. apply (R_aux s r HR).
-    + intros x. destruct (Z.eq_dec x t) as [->|Hxt]; [apply sync_gen; exact PSt'|].
-      apply sync_unch; [exact Hxt|].
-      destruct (Z.eq_dec x f) as [->|Hxf]; [exact RAf|].
-      apply sync_unch; [exact Hxf|].
-      destruct HR as [_ HR']. apply (Rat_unch s sA r r' x (HR' x) eq_refl eq_refl).
-      unfold unch. change (cur_store sA) with c1. rewrite Hcur, (Hoth x Hxf Hxt).
-      split; [apply (lookup_moved_other s c c1 x Hc (Hoth x Hxf Hxt))|].
-      split; [reflexivity|]. split; [reflexivity|]. split; [reflexivity|].
-      unfold r', r1. split; [rewrite !r_set_other by assumption; reflexivity|]. split; [reflexivity|]. split; reflexivity.
-  - intros x o Hl Hs. unfold sync in *. rewrite !set_balance_cur in *. change (cur_store sA) with c1 in *.
-    destruct (Z.eq_dec x t) as [->|Hxt].
-    + rewrite set_balance_lookup_same in Hl. inversion Hl; subst. simpl. symmetry. apply to_native_to_wei.
-    + rewrite set_balance_lookup_other in Hl by assumption.
-      destruct (Z.eq_dec x f) as [->|Hxf].
-      * rewrite set_balance_lookup_same in Hl. inversion Hl; subst. simpl. symmetry. apply to_native_to_wei.
-      * rewrite set_balance_lookup_other in Hl by assumption.
-        pose proof (lookup_moved_other s c c1 x Hc (Hoth x Hxf Hxt)) as E. fold sA in E. rewrite E in Hl.
-        unfold bank_bal. rewrite (Hoth x Hxf Hxt). fold (bank_bal c x). rewrite <- Hcur. apply (HV x o Hl Hs).
+  - unfold sync. rewrite !set_balance_aux. apply (R_aux s r HR).
+  - intros x. destruct (Z.eq_dec x t) as [->|Hxt]; [apply sync_gen; exact PSt'|].
+    apply sync_unch; [exact Hxt|].
+    destruct (Z.eq_dec x f) as [->|Hxf]; [exact RAf|].
+    apply sync_unch; [exact Hxf|].
+    destruct HR as [_ HR']. apply (Rat_unch s sA r r' x (HR' x) eq_refl eq_refl).
+    unfold unch. change (cur_store sA) with c1. rewrite Hcur, (Hoth x Hxf Hxt).
+    split; [apply (lookup_moved_other s c c1 x Hc (Hoth x Hxf Hxt))|].
+    split; [reflexivity|]. split; [reflexivity|]. split; [reflexivity|].
+    unfold r', r1. split; [rewrite !r_setb_other by assumption; reflexivity|]. split; [reflexivity|].
+    split; [reflexivity|]. rewrite !r_base_setb_other by assumption. reflexivity.
+Qed.
+
+(** ERC20-style storage update *)
+Lemma sim_inc_state mx s r a k d : R s r -> R (inc_state s a k d) (rrun mx (OIncState a k d) r).
+Proof.
+  intros HR. unfold inc_state. rewrite <- (the_obj_sto s r a k HR).
+  apply (sim_set_state s r a k (r_stor r a k + d) HR).
 Qed.
